@@ -27,8 +27,8 @@ func runC12(c *an.Ctx) string {
 	r1214Conversions(c, "R12.14")
 	r1215UntypedAttributes(c, "R12.15")
 	pairedStoresRule(c, "R12.9", "verrs") // every reported error keeps its location: the two parallel slices grow together
-	r067InheritanceAgreement(c, "R12.6") // the validator checks the requirements the generators will use
-	r06SchemeKeyed(c, "R12.5")           // validator and consumers look API keys up under the same scheme-qualified key
+	r067InheritanceAgreement(c, "R12.6")  // the validator checks the requirements the generators will use
+	r06SchemeKeyed(c, "R12.5")            // validator and consumers look API keys up under the same scheme-qualified key
 	r127LinkRecursion(c)
 	r063Inheritance(c) // shared with C06 (rule id R06.3): the finalizer must inherit the requirements the validator checked, or Finalize works on schemes the payload was never validated for
 	dslReexports(c, "R12.8")
@@ -867,7 +867,7 @@ func r1211CommaOKUses(c *an.Ctx, rule string) {
 // design is accepted and a later phase dereferences what the skipped arm would have set.
 func r1212SiblingSwitches(c *an.Ctx, rule string) {
 	type sw struct {
-		f     *an.Func
+		f       *an.Func
 		stmt    *ast.TypeSwitchStmt
 		cases   map[string]bool
 		lookups map[string]map[string]bool // case type -> lookups made in the arm
@@ -1166,19 +1166,21 @@ func acceptsNil(c *an.Ctx, f *an.Func, call *ast.CallExpr, se *ast.SelectorExpr)
 // A result that is dereferenced on the spot (`*AsObject(x.Type)`, `AsArray(t).ElemType`) needs a reason to be
 // non-nil at that point; anything a user's DSL can make of another kind (an empty Message(func(){}), a primitive
 // payload) otherwise crashes evaluation. Accepted reasons, each structural:
-//   (a) a dominating test of the same operand with the matching Is* predicate, a nil test of the same conversion, or
-//       the arm of a type switch over the operand that lists the kind;
-//   (b) the operand is the Type of a *MappedAttributeExpr (its constructor only accepts objects);
-//   (c) the operand was assigned from a composite literal of the kind, or from the matching conversion tested non-nil.
+//
+//	(a) a dominating test of the same operand with the matching Is* predicate, a nil test of the same conversion, or
+//	    the arm of a type switch over the operand that lists the kind;
+//	(b) the operand is the Type of a *MappedAttributeExpr (its constructor only accepts objects);
+//	(c) the operand was assigned from a composite literal of the kind, or from the matching conversion tested non-nil.
+//
 // Sites none of these covers are listed in reviewedConversions with the invariant that makes them safe, read one
 // by one; a site that is neither proved nor reviewed fails.
 var reviewedConversions = map[string]string{
-	"expr.AttributeExpr.debug#AsObject(‹*expr.ViewExpr›.AttributeExpr.Type)":  "debugging printer (AttributeExpr.Debug), not part of evaluation; a view's attribute is an object by construction (dsl buildView rejects anything else)",
-	"expr.GRPCEndpointExpr.Finalize#AsObject(recv.Request.Type)":              "Request is assigned in two places only: Prepare (Type Empty, an object) and dsl.Message, which creates it as an object (R12.15)",
-	"expr.GRPCResponseExpr.Finalize#AsObject(recv.Message.Type)":              "Message is assigned by Prepare (Empty) and by dsl.Message, which creates it as an object (R12.15)",
-	"expr.GRPCResponseExpr.Validate#AsObject(recv.Message.Type)":              "Message is assigned by Prepare (Empty) and by dsl.Message, which creates it as an object (R12.15)",
-	"expr.validateMessage#AsObject(p0.Type)":                                  "both callers pass a request/response message: Request and Message are assigned by Prepare (Empty) and by dsl.Message, which creates them as objects (R12.15)",
-	"expr.HostExpr.URIString#AsObject(recv.Variables.Type)":                   "Variables is created as &AttributeExpr{Type: &Object{}} at its three assignment sites (dsl.Host, HostExpr.Finalize twice)",
+	"expr.AttributeExpr.debug#AsObject(‹*expr.ViewExpr›.AttributeExpr.Type)": "debugging printer (AttributeExpr.Debug), not part of evaluation; a view's attribute is an object by construction (dsl buildView rejects anything else)",
+	"expr.GRPCEndpointExpr.Finalize#AsObject(recv.Request.Type)":             "Request is assigned in two places only: Prepare (Type Empty, an object) and dsl.Message, which creates it as an object (R12.15)",
+	"expr.GRPCResponseExpr.Finalize#AsObject(recv.Message.Type)":             "Message is assigned by Prepare (Empty) and by dsl.Message, which creates it as an object (R12.15)",
+	"expr.GRPCResponseExpr.Validate#AsObject(recv.Message.Type)":             "Message is assigned by Prepare (Empty) and by dsl.Message, which creates it as an object (R12.15)",
+	"expr.validateMessage#AsObject(p0.Type)":                                 "both callers pass a request/response message: Request and Message are assigned by Prepare (Empty) and by dsl.Message, which creates them as objects (R12.15)",
+	"expr.HostExpr.URIString#AsObject(recv.Variables.Type)":                  "Variables is created as &AttributeExpr{Type: &Object{}} at its three assignment sites (dsl.Host, HostExpr.Finalize twice)",
 }
 
 func r1214Conversions(c *an.Ctx, rule string) {
